@@ -128,6 +128,23 @@ Proof.
 Qed.
 Definition refuted_now_binned_precision_recall_curve_param_check : bool := negb (Bool.eqb (accepts chk_binned_precision_recall_curve_param_check wit_binned_precision_recall_curve_param_check_0) (contractb_binned_precision_recall_curve_param_check wit_binned_precision_recall_curve_param_check_0)).
 
+Definition wit_confusion_matrix_update_input_check_0 : env := env_of [("input", (ATensor [3%nat])); ("target", (ATensor [3%nat])); ("num_classes", (AInt 3))] [("torch.min(input) < 0", true); ("torch.min(target) < 0", true)] (Some false).
+(* completeness half: every documented input is accepted *)
+Lemma impl_confusion_matrix_update_input_check e : wf sig_confusion_matrix_update_input_check e -> implb (contractb_confusion_matrix_update_input_check e) (accepts chk_confusion_matrix_update_input_check e) = true.
+Proof. intros H. unfold chk_confusion_matrix_update_input_check, contractb_confusion_matrix_update_input_check. shape_solve H. Qed.
+Lemma contract_implies_accepts_confusion_matrix_update_input_check : forall e, wf sig_confusion_matrix_update_input_check e -> contract_confusion_matrix_update_input_check e -> accepts chk_confusion_matrix_update_input_check e = true.
+Proof. intros e H C. exact (implb_true_intro _ _ (impl_confusion_matrix_update_input_check e H) C). Qed.
+(* the equivalence itself: refuted on the as-is tree by the witness(es) above; if the check is repaired in /repo the
+   left disjunct is proved instead by the generic tactic (same statement checks on both trees) *)
+Lemma check_iff_contract_confusion_matrix_update_input_check_refuted_or_fixed :
+  (forall e, wf sig_confusion_matrix_update_input_check e -> accepts chk_confusion_matrix_update_input_check e = contractb_confusion_matrix_update_input_check e)
+  \/ (exists e, wf sig_confusion_matrix_update_input_check e /\ accepts chk_confusion_matrix_update_input_check e <> contractb_confusion_matrix_update_input_check e).
+Proof.
+  first [ left; intros e H; unfold chk_confusion_matrix_update_input_check, contractb_confusion_matrix_update_input_check; solve [shape_solve H]
+        | right; exists wit_confusion_matrix_update_input_check_0; vm_compute; repeat split; congruence ].
+Qed.
+Definition refuted_now_confusion_matrix_update_input_check : bool := negb (Bool.eqb (accepts chk_confusion_matrix_update_input_check wit_confusion_matrix_update_input_check_0) (contractb_confusion_matrix_update_input_check wit_confusion_matrix_update_input_check_0)).
+
 Definition wit_mean_squared_error_update_input_check_0 : env := env_of [("input", (ATensor [3%nat])); ("target", (ATensor [3%nat])); ("sample_weight", (ATensor [3%nat; 1%nat]))] [] None.
 Definition wit_mean_squared_error_update_input_check_1 : env := env_of [("input", (ATensor [])); ("target", (ATensor [])); ("sample_weight", ANone)] [] None.
 (* completeness half: every documented input is accepted *)
